@@ -224,3 +224,7 @@ func BLSFastAggregateVerify(pubs [][48]byte, msg []byte, sig [96]byte) bool {
 	}
 	return blsu.FastAggregateVerify(ps, msg, &s)
 }
+
+// Opaque64 is an uninterpreted function of x named by tag (engine); natively it is not available (harnesses that use
+// it are model-only).
+func Opaque64(tag string, x uint64) uint64 { panic("zzverif.Opaque64 has no native meaning") }
